@@ -39,7 +39,7 @@ func genC09(rng *rand.Rand, c *Case) {
 	cuts := rng.Intn(6)
 	for i := 0; i < cuts; i++ {
 		// N[0] selects the region, N[1] a position inside it (per mille)
-		c.Ops = append(c.Ops, Op{K: "cut", N: []int{rng.Intn(9), rng.Intn(1001)}})
+		c.Ops = append(c.Ops, Op{K: "cut", N: []int{rng.Intn(9), rng.Intn(1001), rng.Intn(2)}})
 	}
 }
 
@@ -160,7 +160,16 @@ func runC09(w *World) {
 			default:
 				w.Probe("fault_cut_in_resource_fork")
 			}
-			c.SendStream(stream, cut, 0)
+			graceful := len(op.N) > 2 && op.N[2] == 1
+			if op.N[0] < 0 {
+				graceful = w.Case.Idx/len(stream)%2 == 1
+			}
+			if graceful {
+				w.Probe("fault_cut_by_close")
+			} else {
+				w.Probe("fault_cut_by_reset")
+			}
+			c.SendStreamCut(stream, cut, 0, graceful)
 			if cut >= 16 {
 				exists = true // the server opens the partial file as soon as it has the transfer preamble
 			}
